@@ -11,6 +11,36 @@ CHECKS = {
         technique="runtime postcondition monitor on operator results against an exact-rational reference + metamorphic law monitors; exhaustive 18^n cell lattice for n<=3",
         text="Every FuzzyOr/And/Not/Union/WeightedUnion/SelectedUnion/XOr call made by the workload is checked cell by cell against an independent exact-rational model, and the algebraic laws are checked on the same inputs. For <=3 inputs the complete lattice of 17 fuzzy values + missing is enumerated (as array cells, in rank 1-3 layouts and all input orders); 4-5 inputs are sampled. Held on what was executed, not a proof.",
         note="Trusted: numpy.ma primitives, the reference models in src/mpv/ref.py, the stand-in producer commands (built as the repository's tests build them). Values are multiples of 1/8 in [-1,1]; other floats are covered only through C04/C02 workloads."),
+    "C03": dict(
+        level="exploration", design="5/C03",
+        technique="runtime mask postconditions on every data-command result + payload-variation metamorphic monitor (three payloads under the mask; CSV read with two missing markers)",
+        text="Each generated call of every built-in data command is monitored for: result mask contains the union of the input masks; result mask contains nothing else unless the reference model says the operation is undefined there; and three runs that differ only in the numbers hidden under masked cells give bit-identical visible results. Exploration over random shapes, dtypes, mask placements and parameter sets.",
+        note="Trusted: numpy.ma, reference models (for the 'undefined cell' set), stand-in producers. Bounded: <=5 inputs, <=40 cells, lattice values; NaN/inf never generated."),
+    "C04": dict(
+        level="exploration", design="5/C04",
+        technique="runtime range postcondition on all 14 fuzzy-producing commands under hostile parameters/data, icontract postcondition on insure_fuzzy, quiescent re-check after a further consumer ran",
+        text="Every result of a fuzzy-producing command observed in the workload must lie in [-1,1] at its non-missing cells (NaN counts as outside), immediately and again after another command consumed it. Parameters are deliberately hostile (values up to 1e6, reversed / nearly equal thresholds, negative or huge weights), data include float32/int16/int32 and wild finite floats.",
+        note="Trusted: numpy. Out of scope: non-finite inputs, control points closer than 1e-9 relative (slope overflow), fuzzy operator inputs outside [-1,1]."),
+    "C05": dict(
+        level="exploration", design="5/C05",
+        technique="runtime shape postcondition + metamorphic monitors (common cell permutation, reshape across ranks 1-3) on every data command",
+        text="For every generated call the result must have exactly the input shape, and re-running the same command on commonly permuted or reshaped cells must give the identically permuted / reshaped result (bit-exact on the dyadic lattice; 1e-9 for the z-score commands whose float summation order changes).",
+        note="Trusted: numpy. Bounded: rank 1-3, <=48 cells, <=5 inputs."),
+    "C07": dict(
+        level="exploration", design="5/C07",
+        technique="runtime reference postcondition (exact rationals) + input-order metamorphic monitor + single-fault error-class monitor on the ten arithmetic commands",
+        text="Each arithmetic call is compared cell by cell with exact rational arithmetic; every int64/float64 assignment for up to 4 inputs is enumerated and input orders are permuted, demanding the same outcome class and values; zero divisors must yield missing cells; shape / weight-count / empty-list faults must raise MixedArrayShapes / MismatchedWeights / EmptyInputs.",
+        note="Trusted: numpy, reference models. int64 overflow never generated; result dtype not judged."),
+    "C08": dict(
+        level="exploration", design="5/C08",
+        technique="runtime reference postcondition on the Cvt*/Normalize* commands + variant-pair, inverse and monotonicity monitors",
+        text="Each conversion / normalisation result is compared with an independent model of its documented mapping (exact rationals where the mapping is rational; float with 1e-9 tolerance for z-scores), each CvtToFuzzy variant is compared with its clamped Normalize counterpart, CvtFromFuzzy is checked to invert CvtToFuzzy between the thresholds, and monotone mappings must preserve cell order.",
+        note="Trusted: reference models (prototype-validated against the pinned implementation on ~5k cases), numpy. Don't-care: z-score default thresholds (docs and code disagree), StartVal>=EndVal, equal thresholds, duplicate raw values, constant arrays. Only the 14 commands that exist are covered (the property text says 17)."),
+    "C09": dict(
+        level="exploration", design="5/C09",
+        technique="invariant at a quiescent hook: digest of every finished result recomputed after every later execute() in random consumer sequences over all built-in commands (both library sets)",
+        text="After every consumer execution the shape, dtype, mask and unmasked value bits of every previously finished result (stand-in producers and real command results) are re-digested and compared with the digest taken when it was produced. Consumers include single-input forms of n-ary operators, PrintVars, and the CSV and NetCDF writers.",
+        note="Trusted: numpy, sha1. Values under the mask are excluded. Sequences of <=10 consumers over <=6 base arrays."),
 }
 
 PENDING = {}
